@@ -1042,6 +1042,9 @@ class ResilientAgent(Agent):
     def replicate(self, k: int):
         if self.replication_comp is not None:
             self._replication_level = k
+            # The replication computation also needs the target level when it
+            # restores lost replicas and when it evaluates hosting capacity.
+            self.replication_comp.k_target = k
             self.replication_comp.replicate(k)
 
     def setup_repair(self, repair_info):
